@@ -10,7 +10,7 @@ import (
 
 // Reference encodings of descriptor bodies (rule A4, parser side), transcribed from the syntax tables of
 //
-//	ETSI EN 300 468 v1.15.1 clause 6.2 (DVB descriptors), clause 6.4.10 (supplementary audio), annex D (AC-3, E-AC-3)
+//	ETSI EN 300 468 v1.15.1 clause 6.2 (DVB descriptors), clause 6.4.10 (supplementary audio), annex D (AC-3, E-AC-3; same tables in ETSI TS 102 366 annex A)
 //	ISO/IEC 13818-1 clause 2.6 (MPEG-2 systems descriptors)
 //
 // independently of the library's writer and parser. Every instance is a descriptor loop as it appears in a PSI/SI
@@ -38,13 +38,25 @@ func oneDescriptor(b *layout.SpecBuilder, k int, tag int64, body func(b *layout.
 
 func init() { descriptorSpecs = allDescriptorSpecs }
 
+// emptyBody: descriptor_length = 0. For a descriptor whose body is only a loop of bytes (N = 0 bytes) the stream holds
+// no element of the body at all; the library then allocates no typed structure (descriptor.go, `if d.Length > 0`),
+// which loses no field of the table. The checker's "enclosing pointer is nil" test does not see that a byte string
+// placed in the stream has length 0, hence the two cases are separate instances.
+func emptyBody(b *layout.SpecBuilder, d string) {}
+
+// nonEmpty adds the fact that the byte string cell has at least one byte.
+func nonEmpty(src *layout.Source, cell string) *layout.Source {
+	src.St.Facts = append(src.St.Facts, lin.Fact{F: lin.Sym("len(" + cell + ")").AddC(-1)})
+	return src
+}
+
 func allDescriptorSpecs(c *layout.Checker) []*layout.Source {
 	var out []*layout.Source
 	add := func(name string, tag int64, body func(b *layout.SpecBuilder, d string)) {
 		out = append(out, descSpec(c, name, tag, body))
 	}
 
-	// --- EN 300 468 annex D, table D.1: AC-3_descriptor
+	// --- EN 300 468 annex D.3: AC-3_descriptor
 	for v := 0; v < 16; v++ {
 		ct, bsid, mainid, asvc := v&8 != 0, v&4 != 0, v&2 != 0, v&1 != 0
 		add(fmt.Sprintf("AC-3 descriptor flags=%04b", v), 0x6a, func(b *layout.SpecBuilder, d string) {
@@ -67,7 +79,7 @@ func allDescriptorSpecs(c *layout.Checker) []*layout.Source {
 		})
 	}
 
-	// --- ISO/IEC 13818-1 2.6.64, table 2-92: AVC_video_descriptor
+	// --- ISO/IEC 13818-1 2.6.64: AVC_video_descriptor
 	add("AVC video descriptor", 0x28, func(b *layout.SpecBuilder, d string) {
 		o := d + "/AVCVideo"
 		b.Field(8, o+".ProfileIDC")                                                                       // profile_idc
@@ -77,7 +89,7 @@ func allDescriptorSpecs(c *layout.Checker) []*layout.Source {
 		b.Flag(o+".AVCStillPresent").Flag(o+".AVC24HourPictureFlag").Const(6, 0x3f)                       // AVC_still_present, AVC_24_hour_picture_flag, reserved
 	})
 
-	// --- EN 300 468 6.2.8, table 26: component_descriptor
+	// --- EN 300 468 6.2.8: component_descriptor
 	add("component descriptor", 0x50, func(b *layout.SpecBuilder, d string) {
 		o := d + "/Component"
 		b.Field(4, o+".StreamContentExt").Field(4, o+".StreamContent") // stream_content_ext, stream_content
@@ -86,7 +98,7 @@ func allDescriptorSpecs(c *layout.Checker) []*layout.Source {
 		b.Blob(o + ".Text")                                            // text_char × N
 	})
 
-	// --- EN 300 468 6.2.9, table 28: content_descriptor
+	// --- EN 300 468 6.2.9: content_descriptor
 	for n := 0; n <= 2; n++ {
 		add(fmt.Sprintf("content descriptor with %d items", n), 0x54, func(b *layout.SpecBuilder, d string) {
 			l := d + "/Content.Items"
@@ -98,12 +110,12 @@ func allDescriptorSpecs(c *layout.Checker) []*layout.Source {
 		})
 	}
 
-	// --- ISO/IEC 13818-1 2.6.10, table 2-52: data_stream_alignment_descriptor
+	// --- ISO/IEC 13818-1 2.6.10: data_stream_alignment_descriptor
 	add("data stream alignment descriptor", 0x06, func(b *layout.SpecBuilder, d string) {
 		b.Field(8, d+"/DataStreamAlignment.Type") // alignment_type
 	})
 
-	// --- EN 300 468 annex D, table D.5: enhanced_ac-3_descriptor
+	// --- EN 300 468 annex D.5: enhanced_ac-3_descriptor
 	for v := 0; v < 256; v++ {
 		ct, bsid, mainid, asvc := v&128 != 0, v&64 != 0, v&32 != 0, v&16 != 0
 		s1, s2, s3 := v&4 != 0, v&2 != 0, v&1 != 0
@@ -137,7 +149,7 @@ func allDescriptorSpecs(c *layout.Checker) []*layout.Source {
 		})
 	}
 
-	// --- EN 300 468 6.2.15, table 53: extended_event_descriptor
+	// --- EN 300 468 6.2.15: extended_event_descriptor
 	for n := 0; n <= 2; n++ {
 		add(fmt.Sprintf("extended event descriptor with %d items", n), 0x4e, func(b *layout.SpecBuilder, d string) {
 			o := d + "/ExtendedEvent"
@@ -155,7 +167,7 @@ func allDescriptorSpecs(c *layout.Checker) []*layout.Source {
 		})
 	}
 
-	// --- EN 300 468 6.2.16, table 54: extension_descriptor; 6.4.10, table 149: supplementary_audio_descriptor
+	// --- EN 300 468 6.2.16: extension_descriptor; 6.4.10: supplementary_audio_descriptor
 	for _, lang := range []bool{false, true} {
 		add(fmt.Sprintf("extension descriptor: supplementary audio, language_code_present=%v", lang), 0x7f, func(b *layout.SpecBuilder, d string) {
 			x := d + "/Extension"
@@ -175,14 +187,23 @@ func allDescriptorSpecs(c *layout.Checker) []*layout.Source {
 		b.Blob(x + "/Unknown")                   // selector_byte × N
 	})
 
-	// --- ISO/IEC 13818-1 2.6.18, table 2-59: ISO_639_language_descriptor (one language entry: the library's structure
-	// holds a single one)
+	// --- ISO/IEC 13818-1 2.6.18: ISO_639_language_descriptor, a loop of (ISO_639_language_code, audio_type). The
+	// library's structure holds one entry.
 	add("ISO 639 language descriptor with 1 entry", 0x0a, func(b *layout.SpecBuilder, d string) {
 		o := d + "/ISO639LanguageAndAudioType"
 		b.BlobN(o+".Language", 3).Field(8, o+".Type") // ISO_639_language_code, audio_type
 	})
+	// With two entries the structure can hold one of them at most; whichever it is, Language must be the 3-byte
+	// ISO_639_language_code of that entry. The parser takes audio_type from the last entry, so the instance asks for the
+	// last entry (asking for the first one fails on Language in the same way, and on Type as well); the first entry is
+	// carried by no field. KNOWN DEVIATION of the parser (its source has a FIXME): Language is returned as 7 bytes.
+	add("ISO 639 language descriptor with 2 entries", 0x0a, func(b *layout.SpecBuilder, d string) {
+		o := d + "/ISO639LanguageAndAudioType"
+		b.Opaque(24, "$first_ISO_639_language_code").Opaque(8, "$first_audio_type") // entry 0
+		b.BlobN(o+".Language", 3).Field(8, o+".Type")                               // ISO_639_language_code, audio_type (entry 1)
+	})
 
-	// --- EN 300 468 6.2.20, table 67: local_time_offset_descriptor
+	// --- EN 300 468 6.2.20: local_time_offset_descriptor
 	for n := 0; n <= 2; n++ {
 		add(fmt.Sprintf("local time offset descriptor with %d items", n), 0x58, func(b *layout.SpecBuilder, d string) {
 			l := d + "/LocalTimeOffset.Items"
@@ -198,17 +219,18 @@ func allDescriptorSpecs(c *layout.Checker) []*layout.Source {
 		})
 	}
 
-	// --- ISO/IEC 13818-1 2.6.26, table 2-65: maximum_bitrate_descriptor
+	// --- ISO/IEC 13818-1 2.6.26: maximum_bitrate_descriptor
 	add("maximum bitrate descriptor", 0x0e, func(b *layout.SpecBuilder, d string) {
 		b.Const(2, 3).Field(22, "$maximum_bitrate") // reserved, maximum_bitrate (units of 50 bytes/s)
 	})
 
-	// --- EN 300 468 6.2.27, table 84: network_name_descriptor
-	add("network name descriptor", 0x40, func(b *layout.SpecBuilder, d string) {
+	// --- EN 300 468 6.2.27: network_name_descriptor (N >= 1 and N = 0 characters: see emptyBody)
+	out = append(out, nonEmpty(descSpec(c, "network name descriptor with N >= 1 characters", 0x40, func(b *layout.SpecBuilder, d string) {
 		b.Blob(d + "/NetworkName.Name") // char × N
-	})
+	}), "$ds/[0]/NetworkName.Name"))
+	add("network name descriptor with no character", 0x40, emptyBody)
 
-	// --- EN 300 468 6.2.28, table 85: parental_rating_descriptor
+	// --- EN 300 468 6.2.28: parental_rating_descriptor
 	for n := 0; n <= 2; n++ {
 		add(fmt.Sprintf("parental rating descriptor with %d items", n), 0x55, func(b *layout.SpecBuilder, d string) {
 			l := d + "/ParentalRating.Items"
@@ -220,24 +242,24 @@ func allDescriptorSpecs(c *layout.Checker) []*layout.Source {
 		})
 	}
 
-	// --- ISO/IEC 13818-1 2.6.28, table 2-67: private_data_indicator_descriptor
+	// --- ISO/IEC 13818-1 2.6.28: private_data_indicator_descriptor
 	add("private data indicator descriptor", 0x0f, func(b *layout.SpecBuilder, d string) {
 		b.Field(32, d+"/PrivateDataIndicator.Indicator") // private_data_indicator
 	})
 
-	// --- EN 300 468 6.2.31, table 89: private_data_specifier_descriptor
+	// --- EN 300 468 6.2.31: private_data_specifier_descriptor
 	add("private data specifier descriptor", 0x5f, func(b *layout.SpecBuilder, d string) {
 		b.Field(32, d+"/PrivateDataSpecifier.Specifier") // private_data_specifier
 	})
 
-	// --- ISO/IEC 13818-1 2.6.8, table 2-51: registration_descriptor
+	// --- ISO/IEC 13818-1 2.6.8: registration_descriptor
 	add("registration descriptor", 0x05, func(b *layout.SpecBuilder, d string) {
 		o := d + "/Registration"
 		b.Field(32, o+".FormatIdentifier")          // format_identifier
 		b.Blob(o + ".AdditionalIdentificationInfo") // additional_identification_info × N
 	})
 
-	// --- EN 300 468 6.2.33, table 86: service_descriptor
+	// --- EN 300 468 6.2.33: service_descriptor
 	add("service descriptor", 0x48, func(b *layout.SpecBuilder, d string) {
 		o := d + "/Service"
 		b.Field(8, o+".Type")                              // service_type
@@ -245,7 +267,7 @@ func allDescriptorSpecs(c *layout.Checker) []*layout.Source {
 		b.LenField(8, o+".Name").Blob(o + ".Name")         // service_name_length, char
 	})
 
-	// --- EN 300 468 6.2.37, table 94: short_event_descriptor
+	// --- EN 300 468 6.2.37: short_event_descriptor
 	add("short event descriptor", 0x4d, func(b *layout.SpecBuilder, d string) {
 		o := d + "/ShortEvent"
 		b.BlobN(o+".Language", 3)                            // ISO_639_language_code
@@ -253,12 +275,12 @@ func allDescriptorSpecs(c *layout.Checker) []*layout.Source {
 		b.LenField(8, o+".Text").Blob(o + ".Text")           // text_length, text_char
 	})
 
-	// --- EN 300 468 6.2.39, table 96: stream_identifier_descriptor
+	// --- EN 300 468 6.2.39: stream_identifier_descriptor
 	add("stream identifier descriptor", 0x52, func(b *layout.SpecBuilder, d string) {
 		b.Field(8, d+"/StreamIdentifier.ComponentTag") // component_tag
 	})
 
-	// --- EN 300 468 6.2.41, table 98: subtitling_descriptor
+	// --- EN 300 468 6.2.41: subtitling_descriptor
 	for n := 0; n <= 2; n++ {
 		add(fmt.Sprintf("subtitling descriptor with %d items", n), 0x59, func(b *layout.SpecBuilder, d string) {
 			l := d + "/Subtitling.Items"
@@ -271,7 +293,7 @@ func allDescriptorSpecs(c *layout.Checker) []*layout.Source {
 		})
 	}
 
-	// --- EN 300 468 6.2.43, table 100: teletext_descriptor; 6.2.48: VBI_teletext_descriptor (same syntax)
+	// --- EN 300 468 6.2.43: teletext_descriptor; 6.2.48: VBI_teletext_descriptor (same syntax)
 	for _, tt := range []struct {
 		tag   int64
 		field string
@@ -291,7 +313,7 @@ func allDescriptorSpecs(c *layout.Checker) []*layout.Source {
 		}
 	}
 
-	// --- EN 300 468 6.2.47, table 105: VBI_data_descriptor
+	// --- EN 300 468 6.2.47: VBI_data_descriptor
 	vbi := func(ids []int64, counts []int) {
 		var ns []string
 		for k := range ids {
@@ -332,7 +354,7 @@ func allDescriptorSpecs(c *layout.Checker) []*layout.Source {
 	vbi([]int64{0x00, 0x05}, []int{2, 0})
 
 	// --- ISO/IEC 13818-1 2.6.1: every descriptor is descriptor_tag, descriptor_length and descriptor_length bytes.
-	// EN 300 468 table 12: tags 0x80..0xFE are user defined. The library keeps the bytes of user defined descriptors
+	// EN 300 468 6.1: tags 0x80..0xFE are user defined. The library keeps the bytes of user defined descriptors
 	// and of descriptors it has no type for.
 	for _, tag := range []int64{0x80, 0xfe} {
 		add(fmt.Sprintf("user defined descriptor, tag 0x%02x", tag), tag, func(b *layout.SpecBuilder, d string) {
@@ -340,9 +362,10 @@ func allDescriptorSpecs(c *layout.Checker) []*layout.Source {
 		})
 	}
 	for _, tag := range []int64{0x02, 0x7e, 0xff} {
-		add(fmt.Sprintf("descriptor not typed by the library, tag 0x%02x", tag), tag, func(b *layout.SpecBuilder, d string) {
+		out = append(out, nonEmpty(descSpec(c, fmt.Sprintf("descriptor not typed by the library, tag 0x%02x, N >= 1 bytes", tag), tag, func(b *layout.SpecBuilder, d string) {
 			b.Blob(d + "/Unknown.Content")
-		})
+		}), "$ds/[0]/Unknown.Content"))
+		add(fmt.Sprintf("descriptor not typed by the library, tag 0x%02x, no byte", tag), tag, emptyBody)
 	}
 
 	// --- the loop itself: no descriptor, two descriptors
